@@ -15,8 +15,11 @@ from datetime import timedelta
 
 d3_time = {}
 
-milli2dt = lambda x: datetime.fromtimestamp(x / 1000.0)
-dt2milli = lambda x: x.timestamp() * 1000.0
+# Naive datetimes are wall-clock values: convert through a fixed naive epoch,
+# never through the process's local time zone.
+d3_time_epoch = datetime(1970, 1, 1)
+milli2dt = lambda x: d3_time_epoch + timedelta(milliseconds=x)
+dt2milli = lambda x: (x - d3_time_epoch) / timedelta(milliseconds=1)
 
 # Timezones are ignored
 getTimezoneOffset = lambda x: 0
@@ -148,7 +151,7 @@ def d3_time_week_local(date):
     i = 7
     ndate = d3_time["day"](date)
     diff = ((date.isoweekday() % 7) + i) % 7
-    ndate = datetime.fromtimestamp(ndate.timestamp() - diff * 24 * 3600)
+    ndate = ndate - timedelta(days=diff)
     return ndate
 
 
@@ -163,9 +166,7 @@ def d3_time_week_number(date):
 
 d3_time["week"] = d3_time_interval(
     lambda date: d3_time_week_local(date),
-    lambda date, offset: datetime.fromtimestamp(
-        date.timestamp() + math.floor(offset) * 7 * 24 * 3600
-    ),
+    lambda date, offset: date + timedelta(days=math.floor(offset) * 7),
     lambda date: d3_time_week_number(date),
 )
 
